@@ -6,3 +6,4 @@ INVARIANT ExistsUnique
 INVARIANT Equivalent
 INVARIANT WeakOrder
 INVARIANT NoFailure
+INVARIANT FlatSound
